@@ -6,7 +6,7 @@ from common import *
 GROUP = "framing"
 MODEL_FILES = ["coq/Link.v", "coq/Tpkt.v"]
 PROFILES = ["debug", "release"]
-RULE = ("payload lengths 0..70000 (every boundary around the 16-bit frame limit exhaustively), sink schedules: "
+RULE = ("HISTORIES of 2-4 writes on one client with an error injected at every byte position of the first frame, retries, refused messages in between; payload lengths 0..70000 (every boundary around the 16-bit frame limit exhaustively), sink schedules: "
         "accept-all, fixed caps 1..n, random caps, zero-length acceptance, an injected error at every call position "
         "(small payloads) and at random positions (large); both tpkt and x224 writers.  Non-trivial = the sink was "
         "asked to take a non-empty frame or the message was refused for size; distinct = (layer, length class, "
@@ -34,6 +34,25 @@ def ref_write(layer, n, seed, sched):
         out += rest; rest = b""
     if ok and rest: out += rest
     return ("ok" if ok else "err:Io") + " wrote=" + summ(out)
+
+def ref_writes(layer, msgs, sched):
+    """reference for a HISTORY of writes on one client: every write is judged on its own frame; the sink's schedule runs on"""
+    res = []; wire = b""; sched = list(sched)
+    for (n, seed) in msgs:
+        p = fill(n, seed)
+        if layer == "x224": p = b"\x02\xf0\x80" + p
+        if len(p) + 4 > 0xffff:
+            res.append("err:InvalidSize:0"); continue
+        rest = bytes([3, 0, (len(p) + 4) >> 8, (len(p) + 4) & 255]) + p
+        out = b""; ok = True
+        while rest:
+            if not sched: out += rest; rest = b""; break
+            st = sched.pop(0)
+            if st is None or st == 0: ok = False; break
+            out += rest[:st]; rest = rest[st:]
+        wire += out
+        res.append("%s:%d" % ("ok" if ok else "err:Io", len(out)))
+    return " ".join(res) + " wrote=" + summ(wire)
 
 def sched_tok(sched_desc):
     return ",".join(sched_desc) if sched_desc else "."
@@ -86,6 +105,27 @@ def gen_cases(tier, rng):
                 elif r < 0.14: desc.append("0")
                 else: desc.append("%d*%d" % (rng.choice([1, 2, 3, 4, 5, 7, 16, 100, 1460, 5000]), rng.randrange(1, 6)))
             add(layer, n, rng.randrange(256), desc)
+    # HISTORIES on one client: a write that fails (or succeeds) must leave nothing behind that a later write emits
+    def addh(layer, msgs, desc):
+        line = "writes %s %s %s" % (layer, ",".join("%d:%d" % m for m in msgs), sched_tok(desc))
+        cases.append((line, ref_writes(layer, msgs, expand(desc))))
+    for layer in ("tpkt", "x224"):
+        for (a, b) in [(8, 5), (0, 0), (1, 300), (300, 1), (60, 60)]:
+            total = a + 4 + (3 if layer == "x224" else 0)
+            addh(layer, [(a, 1), (b, 2)], [])
+            for pos in range(0, min(total, 14) + 1):
+                addh(layer, [(a, 1), (b, 2)], (["1*%d" % pos] if pos else []) + ["F"])             # A fails at byte pos, then B
+                addh(layer, [(a, 1), (a, 1)], (["1*%d" % pos] if pos else []) + ["F"])             # A fails, A retried
+                addh(layer, [(a, 1), (b, 2), (a, 3)], (["1*%d" % pos] if pos else []) + ["0", "2*3", "F"])
+            addh(layer, [(a, 1), (70000, 2), (b, 3)], [])                                          # a refused message in between
+            addh(layer, [(a, 1), (b, 2), (a, 3), (b, 4)], ["3*4", "F", "5*2", "F"])
+        for _ in range(40 if quick else 1500):
+            msgs = [(rng.choice([0, 1, 5, 17, 200, 1500]), rng.randrange(256)) for _ in range(rng.randrange(2, 5))]
+            desc = []
+            for _ in range(rng.randrange(1, 8)):
+                r = rng.random()
+                desc.append("F" if r < 0.25 else "0" if r < 0.35 else "%d*%d" % (rng.choice([1, 2, 3, 7, 50, 1460]), rng.randrange(1, 5)))
+            addh(layer, msgs, desc)
     if not quick:
         for n in range(0, 70001, 97):
             add("tpkt", n, n % 256, [rng.choice(["1460*60", "4096*3", "65536"])])
@@ -96,6 +136,8 @@ def classify(line, out):
 
 def shape(line):
     t = line.split()
+    if t[0] == "writes":
+        return (t[1], "history%d" % min(len(t[2].split(",")), 4), "fail" if "F" in t[3].split(",") else "nofail")
     n = int(t[2])
     lc = "0" if n == 0 else "small" if n < 300 else "mid" if n < 65000 else "edge" if n < 65540 else "huge"
     sd = t[4]
